@@ -10,6 +10,8 @@
 
 namespace jv {
 
+const std::string& arm_last_fault();
+
 enum { BK_B384 = 0, BK_F384, BK_W768, BK_T768, BK_B256, BK_F256, BK_W512, BK_T512, BK_COUNT };
 static const size_t bank_bytes[BK_COUNT] = {48, 48, 96, 96, 32, 32, 64, 64};
 static const size_t bank_regs[BK_COUNT] = {8, 8, 4, 4, 8, 8, 4, 4};
@@ -67,6 +69,59 @@ struct PrimRun {
         env.count(strf("probe:pair_constructor_%s_%d", is256 ? "256" : "384", kind));
         env.logf("PAIR w%d k%d", is256, kind);
     }
+    // TAIL wide tr ra level rel sq | hex : operands that drive the compare-and-subtract tail of Montgomery reduction / multiplication /
+    // squaring to a chosen depth. v = the value before the final conditional subtraction; its top `level` 32-bit words equal the
+    // modulus', the next word is smaller / equal / larger (rel), the rest is random. For reduction: T = v*R - m*mod for a random valid
+    // m (then the routine's own quotient is m and its pre-subtraction value is exactly v; every non-zero multiple of the modulus
+    // gives v = modulus). For multiplication: a = 2^k*d, b = v*R/a mod modulus. For squaring: a square root of v*R when there is one.
+    static Bn div_small(Bn x, unsigned d, const Bn& mod) {   // x/d mod modulus, d small and odd... or any d coprime to the modulus
+        for (unsigned t = 0; t < d; t++) { uint64_t rem = 0; for (int i = Bn::W - 1; i >= 0; i--) rem = ((rem << 32) | x.w[i]) % d; if (rem == 0) break; x = Bn::add(x, mod); }
+        Bn q; uint64_t rem = 0; for (int i = Bn::W - 1; i >= 0; i--) { uint64_t cur = (rem << 32) | x.w[i]; q.w[i] = (uint32_t) (cur / d); rem = cur % d; }
+        return q;
+    }
+    // (computed once, in the generator: the plan carries the resulting operands as hex tokens "T:<hex>" "A:<hex>" "B:<hex>" "S:<hex>")
+    static std::vector<std::string> tail_tokens(bool is256, int level_in, int rel_in, bool want_sqrt_in, const std::vector<uint8_t>& h_in, std::string& vhex) {
+        const Bn& mod = is256 ? K().r : K().q; int bits = is256 ? 256 : 384, nw = bits / 32; size_t nb = (size_t) bits / 8;
+        int level = level_in % (nw + 1), rel = rel_in % 3 - 1; bool want_sqrt = want_sqrt_in && !is256;
+        std::vector<uint8_t> h = h_in; h.resize(160); std::vector<std::string> out;
+        auto tok = [&](const char* tag, const Bn& v, size_t n) { std::vector<uint8_t> b(n); v.to_le(b.data(), n); out.push_back(std::string(tag) + ":" + hex(b.data(), n)); };
+        Bn v = mod; unsigned delta = 1 + h[0] % 3;
+        if (level >= nw) { if (rel > 0) v = Bn::add(mod, Bn(delta)); else if (rel < 0) v = Bn::sub(mod, Bn(delta)); }
+        else {
+            int idx = nw - level - 1; for (int i = 0; i < idx; i++) memcpy(&v.w[i], &h[4 + 4 * (size_t) i], 4);
+            int64_t w = (int64_t) mod.w[idx] + rel * (int64_t) delta; if (w < 0) w = 0; if (w > 0xFFFFFFFFLL) w = 0xFFFFFFFFLL; v.w[idx] = (uint32_t) w;
+        }
+        vhex = v.hexstr(nb + 1);
+        Bn R = Bn(1).shl(bits), vR = Bn::mul(v, R), rem;
+        Bn hi_m; Bn::divmod(vR, mod, hi_m, rem); if (hi_m >= R) hi_m = Bn::sub(R, Bn(1));
+        Bn lo_m(0); if (v >= mod) { Bn::divmod(Bn::mul(Bn::sub(v, mod), R), mod, lo_m, rem); lo_m = Bn::add(lo_m, Bn(1)); }
+        if (!(hi_m < lo_m)) {
+            Bn span = Bn::add(Bn::sub(hi_m, lo_m), Bn(1)), rnd = Bn::from_le(&h[60], nb), m = Bn::add(lo_m, Bn::mod(rnd, span));
+            if ((h[1] & 7) == 0) m = hi_m; else if ((h[1] & 7) == 1) m = lo_m;
+            tok("T", Bn::sub(vR, Bn::mul(m, mod)), 2 * nb);
+        }
+        Bn vm = Bn::mod(v, mod), target = Bn::mod(Bn::mul(vm, Bn::mod(R, mod)), mod);
+        { int k = (h[2] | (h[3] << 8)) % (bits - 3); unsigned d = (h[108] | 1u); Bn a = Bn::mod(Bn::mul(Bn(1).shl(k), Bn(d)), mod), b = target;
+          for (int i = 0; i < k; i++) { if (b.w[0] & 1) b = Bn::add(b, mod); b = b.shr1(); }
+          b = div_small(b, d, mod);
+          if (!a.is_zero()) { tok("A", a, nb); tok("B", b, nb); } }
+        if (want_sqrt) { Bn e = Bn::add(mod, Bn(1)).shr1().shr1(), sq = Bn::powmod(target, e, mod); if (Bn::mulmod(sq, sq, mod) == target) tok("S", sq, nb); }
+        return out;
+    }
+    // TAIL wide tr ra level rel | v=<hex> T:<hex> A:<hex> B:<hex> S:<hex>
+    void op_tail(const Op& op) {
+        bool is256 = op.arg(0) != 0; int T = is256 ? BK_T512 : BK_T768, F = is256 ? BK_F256 : BK_F384; size_t tr = (size_t) op.arg(1), ra = (size_t) op.arg(2) % 8;
+        for (auto& t : op.s) {
+            if (t.size() < 3 || t[1] != ':') continue; std::vector<uint8_t> b = unhex(t.substr(2)); Bn v = Bn::from_le(b.data(), b.size());
+            if (t[0] == 'T') { set(T, tr, v); env.count("probe:tail_reduction_input_constructed"); }
+            else if (t[0] == 'A') { set(F, ra, v); env.count("probe:tail_multiplication_operands_constructed"); }
+            else if (t[0] == 'B') set(F, (ra + 1) % 8, v);
+            else if (t[0] == 'S') { set(F, (ra + 2) % 8, v); env.count("probe:tail_squaring_operand_constructed"); }
+        }
+        int level = (int) op.arg(3), rel = (int) op.arg(4);
+        env.count(strf("probe:tail_%d_words_equal_next_%s", level, rel < 0 ? "smaller" : rel == 0 ? "equal" : "larger"));
+        env.logf("TAIL w%d l%d r%d %s", is256, level, rel, op.s.empty() ? "" : op.s[0].c_str());
+    }
     void op_prim(const Op& op) {
         int code = (int) op.arg(0) % JV_PR_COUNT; size_t ro = (size_t) op.arg(1), ra = (size_t) op.arg(2), rb = (size_t) op.arg(3); bool alias = op.arg(4) != 0; int asel = (int) op.arg(5) & 1, bsel = (int) (op.arg(5) >> 1) & 1;
         bool is256 = (code >= JV_PR_BI256_ADD && code <= JV_PR_FP256_SQR) || code == JV_PR_FP256_NEG;
@@ -87,6 +142,7 @@ struct PrimRun {
         if (ob == bb && io == ib) return;
         env.lib_calls++;
         int flag = R.jv_prim(code, regs[ob][io].p, regs[ab][ia].p, regs[bb][ib].p);
+        if (flag == -77) env.fail("C03", "arm-assembly-routine-fault", strf("primitive %d: %s", code, arm_last_fault().c_str()));
         env.logf("PRIM %d o%d.%zu a%d.%zu b%d.%zu al%d flag=%d out=%s", code, ob, io, ab, ia, bb, ib, io == ia && ob == ab, flag, regs[ob][io].hexs().c_str());
         env.count(strf("op:prim_%d", code));
         if (ob == F) { if (Bn::from_le(regs[ob][io].p, bank_bytes[ob]) >= (is256 ? K().r : K().q)) env.count("probe:field_result_not_reduced"); }
@@ -96,7 +152,7 @@ struct PrimRun {
     void run() {
         for (size_t i = 0; i < plan.ops.size(); i++) {
             const Op& op = plan.ops[i]; env.step = (int) i;
-            if (op.kind == "LOAD") op_load(op); else if (op.kind == "PAIR") op_pair(op); else if (op.kind == "PRIM") op_prim(op);
+            if (op.kind == "LOAD") op_load(op); else if (op.kind == "PAIR") op_pair(op); else if (op.kind == "PRIM") op_prim(op); else if (op.kind == "TAIL") op_tail(op);
         }
     }
 };
@@ -112,6 +168,17 @@ struct PrimScenario : Scenario {
         for (int i = 0; i < n; i++) {
             int k = r.range(0, 19);
             if (k == 0) { int b = (int) r.below(BK_COUNT); p.ops.push_back({"LOAD", {b, (int64_t) r.below(8), (int64_t) r.below(12)}, {rh(bank_bytes[b])}}); }
+            else if (k == 1 && r.chance(1, 2)) {
+                bool w = r.chance(1, 4); int64_t tr = (int64_t) r.below(4), ra = (int64_t) r.below(8); bool sq = !w && r.chance(1, 3);
+                int lvl = (int) r.below(w ? 9 : 13), rl = (int) r.below(3); std::vector<uint8_t> hb(160); r.fill(hb.data(), 160); std::string vhex;
+                std::vector<std::string> toks = PrimRun::tail_tokens(w, lvl, rl, sq, hb, vhex); toks.insert(toks.begin(), "v=" + vhex);
+                sq = false; for (auto& t : toks) if (t[0] == 'S' && t[1] == ':') sq = true;
+                p.ops.push_back({"TAIL", {w, tr, ra, lvl, rl - 1}, toks});
+                // the reduction, the multiplication and the squaring that consume them (output registers chosen so that the operands survive)
+                p.ops.push_back({"PRIM", {w ? JV_PR_FP256_REDC : JV_PR_FP384_REDC, (ra + 3) % 8, tr, tr, 0, 0}, {}});
+                p.ops.push_back({"PRIM", {w ? JV_PR_FP256_MUL : JV_PR_FP384_MUL, (ra + 4) % 8, ra, (ra + 1) % 8, 0, 0}, {}});
+                if (sq) p.ops.push_back({"PRIM", {JV_PR_FP384_SQR, (ra + 5) % 8, (ra + 2) % 8, 0, 0, 0}, {}});
+            }
             else if (k <= 3) p.ops.push_back({"PAIR", {r.chance(1, 3), (int64_t) r.below(8), (int64_t) r.below(8), (int64_t) r.below(8)}, {rh(48)}});
             else p.ops.push_back({"PRIM", {(int64_t) r.below(JV_PR_COUNT), (int64_t) r.below(8), (int64_t) r.below(8), (int64_t) r.below(8), r.chance(1, 3), (int64_t) r.below(4)}, {}});
         }
